@@ -1,7 +1,7 @@
 (* Properties_C06.v -- C06: success means the exact, complete result
    Only theorem statements, each closed by [exact <lemma>], with Print Assumptions beneath. *)
 From Coq Require Import List ZArith Lia Bool.
-From SC Require Import Base Wp Cfg Comb CombProofs CopySpec ModStr ModMem ModExt ProofsStr ProofsMem SpecStr SpecMem SpecExt PropStr FnProps PropDefs.
+From SC Require Import Base Wp Cfg Comb CombProofs CopySpec ModStr ModMem ModExt ProofsStr ProofsMem SpecStr SpecMem SpecExt SpecExt2 PropStr FnProps PropDefs.
 From SC.Gen Require Import Consts.
 Import ListNotations.
 Local Open Scope Z_scope.
@@ -76,6 +76,14 @@ Print Assumptions C06_strtolowercase_s.
 Theorem C06_strtouppercase_s : forall c d dmax m, d <> 0 -> 1 <= dmax <= rmax_str c -> wp (strtouppercase_s c d dmax BOS_UNKNOWN) m (fun r m' => r = EOK /\ exists t, 0 <= t <= dmax /\ (forall i, 0 <= i < t -> m (d + i) <> 0) /\ (t < dmax -> m (d + t) = 0) /\ forall a, m' a = if (d <=? a) && (a <? d + t) then conv 97 122 (-32) (m a) else m a).
 Proof. exact strtouppercase_s_spec. Qed.
 Print Assumptions C06_strtouppercase_s.
+Theorem C06_strset_s : forall c d dmax value m, d <> 0 -> 1 <= dmax <= rmax_str c -> 0 <= value <= 255 ->
+  wp (strset_s c d dmax value BOS_UNKNOWN) m (set_post c d dmax dmax value m).
+Proof. exact strset_s_spec. Qed.
+Print Assumptions C06_strset_s.
+Theorem C06_strnset_s : forall c d dmax value n m, d <> 0 -> 1 <= dmax <= rmax_str c -> 0 <= value <= 255 -> 0 <= n <= dmax ->
+  wp (strnset_s c d dmax value n BOS_UNKNOWN) m (set_post c d dmax n value m).
+Proof. exact strnset_s_spec. Qed.
+Print Assumptions C06_strnset_s.
 
 Theorem C06_cfg_repo_wf : wf_cfg cfg_repo.
 Proof. exact wf_cfg_repo. Qed.
